@@ -51,7 +51,7 @@ def exc_class(e):
     return (type(e).__name__, frame)
 
 
-def run_shaper(nt_text, cfg, output_format=None, timeout=5, input_format=None, **extra):
+def run_shaper(nt_text, cfg, output_format=None, timeout=60, input_format=None, **extra):
     """-> ('ok', text) | ('exc', (class, frame), message) | ('hang',)"""
     kw = shaper_kwargs(cfg)
     kw.update(extra)
@@ -67,6 +67,19 @@ def run_shaper(nt_text, cfg, output_format=None, timeout=5, input_format=None, *
         return ('hang',)
     except Exception as e:
         return ('exc', exc_class(e), str(e)[:200])
+    finally:
+        signal.alarm(0)
+        signal.signal(signal.SIGALRM, old)
+
+
+def guarded(fn, seconds=60):
+    """run fn() under an alarm: -> (result, None) | (None, ('hang', 'Hang', ...)) ; exceptions of fn propagate"""
+    old = signal.signal(signal.SIGALRM, _alarm)
+    signal.alarm(seconds)
+    try:
+        return fn(), None
+    except Hang:
+        return None, ('hang', 'Hang', 'no result within %d s' % seconds)
     finally:
         signal.alarm(0)
         signal.signal(signal.SIGALRM, old)
